@@ -92,6 +92,7 @@ func RunSyncStorm(seed int64, idx int) *Result {
 				default:
 					nd.HV()
 					nd.ML.State().Height()
+					runtime.Gosched() // (children also run with GOMAXPROCS=1: the readers must not starve the callers)
 				}
 			}
 		}()
